@@ -1376,6 +1376,11 @@ class Terms(object):
                 len(args) == 1 and not kws and args[0][0] == "genexp":
             return ("listcomp" if ft[1] == "list" else "setcomp",) + \
                 tuple(args[0][1:])
+        if ft in (("global", "dict"), ("global", "list")) and not args \
+                and not kws:
+            # dict() is {} and list() is []
+            return ("new", self._site(e),
+                    ("dict", ()) if ft[1] == "dict" else ("list",))
         if ft == ("global", "bool") and len(args) == 1 and not kws and \
                 self.hyps:
             d = self._decided(args[0])
